@@ -10,10 +10,11 @@ LEAN_MODULES = ["Ebv.Props.C11"]
 MODEL_MODULES = ["Ebv.Model.Frame"]
 DRIVER = "Drivers/C11.lean"
 THEOREMS = [
-    "Ebv.C11.parse_assemble_partial", "Ebv.C11.parse_assemble_refuted", "Ebv.C11.assemble_isSome_iff",
-    "Ebv.C11.more_flags", "Ebv.C11.positions_exact", "Ebv.C11.size_bound", "Ebv.C11.pad_min",
-    "Ebv.C11.reject_iff", "Ebv.C11.appendAll_spec", "Ebv.C11.full_iff", "Ebv.C11.sterile_diff",
-    "Ebv.C11.sterile_bytes", "Ebv.C11.sterile_parse_partial", "Ebv.C11.counters_exact",
+    "Ebv.C11.parse_assemble_partial", "Ebv.C11.parse_assemble_refuted", "Ebv.C11.expect_addr",
+    "Ebv.C11.assemble_isSome_iff", "Ebv.C11.more_flags", "Ebv.C11.positions_exact", "Ebv.C11.size_bound",
+    "Ebv.C11.pad_min", "Ebv.C11.reject_iff", "Ebv.C11.appendAll_spec", "Ebv.C11.appendAll_isSome_iff",
+    "Ebv.C11.full_iff", "Ebv.C11.sterile_spec", "Ebv.C11.sterile_bytes", "Ebv.C11.sterile_diff",
+    "Ebv.C11.sterile_parse_partial", "Ebv.C11.counters_exact",
 ]
 TRUSTED = ["hand-written model Ebv.Frame of Packet.append/assemble/full and SterilePacket.append/append_writer/sterile, "
            "tied by exact byte/position correspondence",
@@ -336,7 +337,7 @@ def run(ctx):
     for c in fixed_cases(cmds):
         cases.append(c)
         tags.append("fixed")
-    for _ in range(ctx.n(2500, 60000)):
+    for _ in range(ctx.n(6000, 150000)):
         c, tag = gen(ctx.rng, cmds)
         cases.append(c)
         tags.append(tag)
